@@ -125,13 +125,13 @@ type wChunk struct {
 	Pad   int
 
 	// DATA / I-DATA
-	TSN  uint32
-	SID  uint16
-	SSN  uint16
-	MID  uint32
-	FSN  uint32
-	PPI  uint32
-	Data []byte
+	TSN        uint32
+	SID        uint16
+	SSN        uint16
+	MID        uint32
+	FSN        uint32
+	PPI        uint32
+	Data       []byte
 	U, B, E, I bool
 	// INIT / INIT-ACK
 	InitTag, ARwnd, InitTSN uint32
